@@ -201,6 +201,106 @@ func (st *State) genCandidates(li *loopInfo, ws *writeSet) []candidate {
 			})
 		}
 	}
+	// heap frames: a heap variable assigned in the loop is unchanged, or unchanged outside the objects
+	// designated by loop-invariant cells
+	hnames := make([]string, 0, len(ws.heap))
+	for n := range ws.heap {
+		hnames = append(hnames, n)
+	}
+	sort.Strings(hnames)
+	e := st.eng()
+	for _, hn := range hnames {
+		hn := hn
+		hsort := ws.heap[hn]
+		if hn == "RO" || !strings.HasPrefix(string(hsort), "(Array Int ") {
+			continue
+		}
+		entry := st.heapGet(hn, hsort)
+		add("unchanged("+hn+")", func(s *State) (Term, bool) {
+			cur, ok := s.heap[hn]
+			return Eq(cur, entry), ok
+		})
+		r := Term{"r!q", SInt}
+		var refs []Term
+		var rnames []string
+		type rng struct{ ref, lo, hi Term }
+		ranges := map[int]rng{}
+		for _, a := range allocs {
+			c := fr.cells[a]
+			if ws.cells[a] {
+				continue
+			}
+			v, ok := st.cellVal[c]
+			if !ok || v.T == nil {
+				continue
+			}
+			nm := c.Name
+			if nm == "" {
+				nm = a.Name()
+			}
+			if strings.HasPrefix(hn, "M_") && isSlice(v.T) && !v.Tm.IsZero() {
+				mn, _ := e.memName(elemOf(v.T))
+				if mn == hn {
+					ranges[len(refs)] = rng{SlRef(v.Tm), SlOff(v.Tm), Add(SlOff(v.Tm), SlCap(v.Tm))}
+					refs = append(refs, SlRef(v.Tm))
+					rnames = append(rnames, nm)
+				}
+			} else if strings.HasPrefix(hn, "M_") && isPointer(v.T) {
+				// slices held in fields of the object a loop-invariant pointer designates
+				if stt, ok := types.Unalias(elemOf(v.T)).Underlying().(*types.Struct); ok {
+					if pt, ok := st.tryPtrTerm(v); ok {
+						for fi := 0; fi < stt.NumFields(); fi++ {
+							ft := stt.Field(fi).Type()
+							if !isSlice(ft) {
+								continue
+							}
+							mn, _ := e.memName(elemOf(ft))
+							fh, fsort := e.fieldHeapName(elemOf(v.T), fi)
+							if mn != hn {
+								continue
+							}
+							if _, hav := ws.heap[fh]; hav {
+								continue
+							}
+							sv := Select(st.heapGet(fh, fsort), pt)
+							ranges[len(refs)] = rng{SlRef(sv), SlOff(sv), Add(SlOff(sv), SlCap(sv))}
+							refs = append(refs, SlRef(sv))
+							rnames = append(rnames, nm+"."+stt.Field(fi).Name())
+						}
+					}
+				}
+			} else if strings.HasPrefix(hn, "H_") && isPointer(v.T) {
+				if t, ok := st.tryPtrTerm(v); ok && strings.HasPrefix(hn, "H_"+string(e.sortOfSafe(elemOf(v.T)))+"_") {
+					refs = append(refs, t)
+					rnames = append(rnames, nm)
+				}
+			}
+		}
+		for i := range refs {
+			ref := refs[i]
+			add("frame("+hn+";"+rnames[i]+")", func(s *State) (Term, bool) {
+				cur, ok := s.heap[hn]
+				return Forall([]Term{r}, Implies(Ne(r, ref), Eq(Select(cur, r), Select(entry, r)))), ok
+			})
+		}
+		for i := range refs {
+			rg, ok := ranges[i]
+			if !ok {
+				continue
+			}
+			ix := Term{"i!q", SInt}
+			add("rangeframe("+hn+";"+rnames[i]+")", func(s *State) (Term, bool) {
+				cur, ok := s.heap[hn]
+				return Forall([]Term{ix}, Implies(Or(Lt(ix, rg.lo), Ge(ix, rg.hi)), Eq(Select(Select(cur, rg.ref), ix), Select(Select(entry, rg.ref), ix)))), ok
+			})
+		}
+		if len(refs) == 2 {
+			add("frame("+hn+";"+rnames[0]+","+rnames[1]+")", func(s *State) (Term, bool) {
+				cur, ok := s.heap[hn]
+				return Forall([]Term{r}, Implies(And(Ne(r, refs[0]), Ne(r, refs[1])), Eq(Select(cur, r), Select(entry, r)))), ok
+			})
+		}
+	}
 	return cands
 }
 
@@ -283,6 +383,7 @@ func (st *State) inferInvariants(pre *State, li *loopInfo, ws *writeSet) []candi
 		u.houdini = run
 		savedObls, savedPaths, savedErrs := u.obls, u.paths, u.errs
 		s2.frame.loopsSeen[s2.frame.block] = &loopEntry{}
+		s2.skipEnter = true
 		func() {
 			defer func() {
 				u.houdini = nil
@@ -416,6 +517,12 @@ func (q *Query) declText(used map[string]bool) string {
 		}
 		d := byName[name]
 		if d == nil {
+			// constructors and selectors of struct datatypes
+			if strings.HasPrefix(name, "mk_S_") {
+				mark(name[3:])
+			} else if i := strings.Index(name, "__"); i > 0 && strings.HasPrefix(name, "S_") {
+				mark(name[:i])
+			}
 			return
 		}
 		need[name] = true
